@@ -9,7 +9,7 @@ def n_of(c, quick, thorough):
 
 
 def c03(tier=None):
-    c = Check("C03", ["Wasp.Properties.Facts.Wiring", "Wasp.Properties.C03", "Wasp.Properties.C03C14E2E", "Wasp.Properties.C02Pool", "Wasp.Properties.C02E2E", "Wasp.Properties.C06", "Wasp.Properties.C04", "Wasp.Properties.Facts.C03"], tier)
+    c = Check("C03", ["Wasp.Properties.Facts.Wiring", "Wasp.Properties.C03", "Wasp.Properties.C03C14E2E", "Wasp.Properties.C02Pool", "Wasp.Properties.C02E2E", "Wasp.Properties.C06", "Wasp.Properties.C06Lit", "Wasp.Properties.C04", "Wasp.Properties.C04Lit", "Wasp.Properties.Facts.C03"], tier)
     c.build()
     samples = []
     scs = brokerlib.corpus(c.rng, ["slow-qos2", "wrong-type-ack", "inbound-outbound-id", "ids-return-after-recipient-vanished", "takeover-with-unacked-delivery", "retransmit-then-next", "fanout-unacked-retransmit", "topic-starts-with-mount-name"])
@@ -62,7 +62,7 @@ def c14(tier=None):
 
 
 def c11(tier=None):
-    c = Check("C11", ["Wasp.Properties.Facts.Wiring", "Wasp.Properties.AnswerLost", "Wasp.Properties.C11Record", "Wasp.Properties.C11", "Wasp.Properties.C11Time", "Wasp.Properties.Reachable", "Wasp.Properties.C09", "Wasp.Properties.C08", "Wasp.Properties.Facts.C11"], tier)
+    c = Check("C11", ["Wasp.Properties.Facts.Wiring", "Wasp.Properties.AnswerLost", "Wasp.Properties.C11Record", "Wasp.Properties.C11Reach", "Wasp.Properties.C11", "Wasp.Properties.C11Time", "Wasp.Properties.Reachable", "Wasp.Properties.C09", "Wasp.Properties.C08", "Wasp.Properties.Facts.C11"], tier)
     c.build()
     samples = []
     scs = [gen_lifecycle(c.rng, c.rng.choice([1, 2, 3]), 1, takeover=0.15) for _ in range(n_of(c, 12, 160))]
@@ -97,7 +97,7 @@ def c12(tier=None):
 
 
 def c13(tier=None):
-    c = Check("C13", ["Wasp.Properties.Facts.Wiring", "Wasp.Properties.AnswerLost", "Wasp.Properties.C11Record", "Wasp.Properties.C13", "Wasp.Properties.E2ERetainWill", "Wasp.Properties.Facts.C13"], tier)
+    c = Check("C13", ["Wasp.Properties.Facts.Wiring", "Wasp.Properties.AnswerLost", "Wasp.Properties.C11Record", "Wasp.Properties.C11Reach", "Wasp.Properties.C13", "Wasp.Properties.E2ERetainWill", "Wasp.Properties.Facts.C13"], tier)
     c.build()
     samples = []
     scs = [gen_converged(c.rng, c.rng.choice([1, 2, 3]), 1, c.rng.choice([8, 12]), {"end": 5, "connect": 4, "sub": 4, "pub": 2}) for _ in range(n_of(c, 12, 160))]
@@ -141,4 +141,7 @@ def c02(tier=None):
     scs = brokerlib.corpus(c.rng, ["local-log-fails-remote-accepts"]) + [gen_faults(c.rng, c.rng.choice([2, 3])) for _ in range(n_of(c, 8, 100))]
     run_scenarios(c, "acknowledged-only-if-stored-everywhere", scs, samples)
     brokerlib.add_reallog_suites(c, samples)
+    # a delivery is dropped after the acknowledgement when its (session, identifier) key is taken: the key space of the table
+    from checks import c04
+    c04.add_key_space_suite(c, samples, n_of(c, 80, 1500))
     return c.finish(samples=samples, rule="case = one publish history (QoS mix, 1-3 publishers and subscribers); the real-log suite crosses the segment (500) and truncation (2000) boundaries and starts with the first message a node ever stores")
